@@ -1134,6 +1134,29 @@ def _is_mutable_literal(v):
         or (isinstance(v, ast.Call) and isinstance(v.func, ast.Attribute) and v.func.attr in ("defaultdict", "OrderedDict", "deque"))
 
 
+def one_object_many_slots_rule(index, rep, rid, modules):
+    """(f) one mutable object is not installed under many keys / positions: `dict.fromkeys(keys, <list | set | dict>)`
+    and `[<list | set | dict>] * n` put the SAME container behind every key or slot, so what is added for one shows up
+    under all of them."""
+    n = 0
+    for m in modules:
+        for f in index.functions_in_module(m):
+            for x in ast.walk(f.node):
+                if isinstance(x, ast.Call) and call_name(x) == "fromkeys" and len(x.args) == 2:
+                    n += 1
+                    v = x.args[1]
+                    mut = _is_mutable_literal(v) or (isinstance(v, ast.Call) and isinstance(v.func, ast.Name) and v.func.id in ("set", "list", "dict", "defaultdict", "OrderedDict"))
+                    rep.check(not mut, rid, f.qualname, "one `%s` shared by every key of fromkeys()" % norm(v)[:30], fn_where(f, x), "",
+                              "%s builds `%s`: fromkeys() installs the one object `%s` as the value of EVERY key, so an element added under one key appears under all of them (every gene ends up in every species of a containing-tree mapping)" % (f.qualname, norm(x)[:60], norm(v)[:30]))
+                elif isinstance(x, ast.BinOp) and isinstance(x.op, ast.Mult):
+                    for a, b in ((x.left, x.right), (x.right, x.left)):
+                        if isinstance(a, ast.List) and len(a.elts) == 1 and (_is_mutable_literal(a.elts[0]) or (isinstance(a.elts[0], ast.Call) and isinstance(a.elts[0].func, ast.Name) and a.elts[0].func.id in ("set", "list", "dict"))) and not isinstance(b, ast.List):
+                            n += 1
+                            rep.check(False, rid, f.qualname, "one `%s` repeated in every slot" % norm(a.elts[0])[:30], fn_where(f, x), "",
+                                      "%s builds `%s`: every slot of the resulting list refers to the one inner container, so filling one position fills them all" % (f.qualname, norm(x)[:60]))
+    return n
+
+
 _ATTR_WRITERS = {}
 
 
@@ -1214,6 +1237,7 @@ def shared_state_rule(index, rep, rid, modules):
     module-level mutable container."""
     n = foreign_private_rule(index, rep, rid, modules)
     n += uninvalidated_memo_rule(index, rep, rid, modules)
+    n += one_object_many_slots_rule(index, rep, rid, modules)
     for m in modules:
         mod = index.module(m)
         for f in index.functions_in_module(m):
